@@ -169,7 +169,7 @@ func fill(rt *rapid.T, st *step) {
 		st.Addr = genAddr.Draw(rt, "addr")
 	case kIP:
 		st.Addr = genAddr.Draw(rt, "addr")
-	case kPAPMalformed, kIPCPReqDNS, kIPCPReqPlain:
+	case kPAPMalformed, kIPCPReqDNS, kIPCPReqPlain, kPADR:
 		st.Variant = rapid.IntRange(0, 4).Draw(rt, "variant")
 	}
 }
